@@ -557,3 +557,8 @@ _add_family(globals(), _ru, 'reuseupd', _ru.oracle, share=0.05)
 # glob children that come with Engine(store=, initial_state=), and glob children sharing their default object
 from harness import storeinit as _si                    # noqa: E402
 _add_family(globals(), _si, 'storeinit', _si.oracle, share=0.04)
+
+
+# several ports on one node, falsy updates among them
+from harness import falsymulti as _fm                   # noqa: E402
+_add_family(globals(), _fm, 'falsymulti', _fm.oracle, share=0.04)
